@@ -11,6 +11,7 @@ Viol(ev) ==
   LET g == GraphOf(ev) IN
   IF ~InDomain(g) THEN {"bad-input"}
   ELSE CASE ev.e = "Forest" -> ForestViol(g, ev) \cup (IF ev.copy_same THEN {} ELSE {"copy-differs"})
+                                              \cup (IF ev.assign_same THEN {} ELSE {"assigned-index-differs"})
          [] ev.e = "Fvs" -> FvsViol(g, ev.out)
          [] ev.e = "Spt" -> SptViol(g, ev.trees)
          [] ev.e = "Coll" -> CollViol(g, ev.horton, ev.fvs, ev.iso)
